@@ -263,8 +263,8 @@ fn run(run: &mut Run) {
     run.min_nontrivial = 1000;
     run.enumerate("prefixes", *prefix_table().last().unwrap(), &prefix_case);
     run.enumerate("token-faults", *fault_table().last().unwrap(), &token_fault_case);
-    run.explore("odd-characters", run.tier.pick(30_000, 1_000_000), 16, &insertion_case);
-    run.explore("token-soup", run.tier.pick(30_000, 1_000_000), 400, &soup_case);
+    run.explore("odd-characters", run.tier.pick(150_000, 1_500_000), 16, &insertion_case);
+    run.explore("token-soup", run.tier.pick(150_000, 1_500_000), 400, &soup_case);
     run.enumerate("alloc-scaling", run.tier.pick(4, 6), &scaling_case);
 }
 fn case(sub: &str) -> Option<Box<CaseFn<'static>>> {
